@@ -381,6 +381,7 @@ struct Case {
     stream: Option<(BlockHash, bool)>,
     last_view: String,
     last_store: Option<Value>,
+    last_dump: Vec<(String, u64, String)>,
     /// the height of the last block of `chain`, kept by the harness
     ghost_height: u32,
 }
@@ -649,6 +650,8 @@ enum Flavour {
     Valid,
     ValidStreamed,
     WrongPrev,
+    /// the block is streamed, then named by an AddBlock whose header does not link: refused as an orphan
+    StreamedWrongPrev,
     BadPow,
     OtherBits(u8),
     ProofOtherBlock,
@@ -839,7 +842,7 @@ impl Case {
         let height = self.ghost_height.wrapping_add(1);
         let (txs, changes) = self.next_txs(fx, rng);
         let prev_hash = match fl {
-            Flavour::WrongPrev => {
+            Flavour::WrongPrev | Flavour::StreamedWrongPrev => {
                 if self.chain.len() >= 2 && rng.chance(1, 2) {
                     self.chain[self.chain.len() - 2].0.block_hash()
                 } else {
@@ -867,7 +870,7 @@ impl Case {
             }
             Flavour::ProofMissingSpend => compact_proof(&block, &all_txids[0..1], &[]),
             Flavour::FullBlockProof => ProofType::Block(block.clone()),
-            Flavour::ValidStreamed | Flavour::ExternalWithoutStream | Flavour::StreamIncomplete | Flavour::StreamOtherBlock => ProofType::ExternalBlock(),
+            Flavour::ValidStreamed | Flavour::StreamedWrongPrev | Flavour::ExternalWithoutStream | Flavour::StreamIncomplete | Flavour::StreamOtherBlock => ProofType::ExternalBlock(),
             _ => compact_proof(&block, &all_txids, &[]),
         };
         let mode = match fl {
@@ -1021,6 +1024,28 @@ impl Case {
         // behind the handler: an acknowledged block is in the store, anything else left it alone
         let mut store_violation = None;
         if self.hctx.is_some() {
+            // every key / version / value of the store: a request that was not acknowledged as a
+            // block (a refusal - the orphan answer is one, although it travels in an Ok reply -,
+            // a panic, a chunk) must not write at all, not even the same value again
+            let dump = store_dump(&self.hctx.as_ref().unwrap().world.persister);
+            if !(code == 0 && validity.is_some()) && dump != self.last_dump {
+                let changed: Vec<Value> = dump
+                    .iter()
+                    .filter_map(|(k, ver, val)| match self.last_dump.iter().find(|(k0, _, _)| k0 == k) {
+                        Some((_, v0, val0)) if v0 == ver && val0 == val => None,
+                        Some((_, v0, val0)) => Some(json!({"key": k, "version_before": v0, "version_after": ver, "value_changed": val0 != val})),
+                        None => Some(json!({"key": k, "new": true})),
+                    })
+                    .collect();
+                let v = json!({"request": what, "result": code_name(code), "store_written_by_a_request_that_was_not_acknowledged": changed});
+                if (1..=6).contains(&code) && atomic_violation.is_none() {
+                    atomic_violation = Some(v.clone());
+                }
+                store_violation = Some(v);
+            }
+            self.last_dump = dump;
+        }
+        if self.hctx.is_some() && store_violation.is_none() {
             let stored = self.stored_entry();
             if code == 0 && validity.is_some() {
                 if stored.as_ref() != Some(&post) {
@@ -1214,6 +1239,7 @@ impl Case {
                 o.restart_violation = Some(json!({"restart_rewrote_the_stored_tracker": true}));
             }
             self.last_store = stored_after;
+            self.last_dump = store_dump(&self.hctx.as_ref().unwrap().world.persister);
             if fast_forward {
                 o.tags.push("restart at height 0 fast-forwards to the checkpoint".into());
             } else {
@@ -1399,6 +1425,7 @@ fn new_case_on(fx: &Fixture, st: &Start, salt0: u32, via_handler: bool) -> Case 
         stream: None,
         last_view: String::new(),
         last_store: None,
+        last_dump: vec![],
         ghost_height: st.height,
     }
 }
@@ -1511,6 +1538,7 @@ fn run_case(fx: &Fixture, rng: &mut Rng, id: usize, stats: &mut BTreeMap<String,
     }
     let mut case = new_case_on(fx, &st, id as u32 + 1, via_handler);
     case.last_store = case.stored_entry();
+    case.last_dump = case.hctx.as_ref().map(|h| store_dump(&h.world.persister)).unwrap_or_default();
     let coq_cfg = case.coq_cfg(fx);
     let coq_init = case.coq_state();
     let len = 3 + rng.below(10) as usize;
@@ -1581,13 +1609,14 @@ fn run_case(fx: &Fixture, rng: &mut Rng, id: usize, stats: &mut BTreeMap<String,
                 if rng.chance(1, 3) {
                     Flavour::ValidStreamed
                 } else if via_handler && rng.chance(1, 4) {
-                    Flavour::WrongPrev
+                    if rng.chance(1, 2) { Flavour::StreamedWrongPrev } else { Flavour::WrongPrev }
                 } else {
                     Flavour::Valid
                 }
             } else {
                 match rng.below(40) {
-                    0 | 1 => Flavour::WrongPrev,
+                    0 => Flavour::WrongPrev,
+                    1 => Flavour::StreamedWrongPrev,
                     2 | 3 => Flavour::BadPow,
                     4 | 5 | 6 => Flavour::OtherBits(rng.below(12) as u8),
                     7 | 8 => Flavour::ProofOtherBlock,
@@ -1614,7 +1643,7 @@ fn run_case(fx: &Fixture, rng: &mut Rng, id: usize, stats: &mut BTreeMap<String,
             };
             let fl = if via_handler && fl == Flavour::NoAttestation { Flavour::BadSignature } else { fl };
             let (b, changes) = case.build_add(fx, rng, fl);
-            let streamed = matches!(fl, Flavour::ValidStreamed | Flavour::StreamIncomplete | Flavour::StreamOtherBlock);
+            let streamed = matches!(fl, Flavour::ValidStreamed | Flavour::StreamedWrongPrev | Flavour::StreamIncomplete | Flavour::StreamOtherBlock);
             let mut aborted = false;
             if streamed {
                 let (sblock, declared) = if fl == Flavour::StreamOtherBlock {
@@ -1976,6 +2005,7 @@ fn scripted(_args: &Args) {
                          tip_bits_kind: None, prev_bits_kind: None, tip_fh_zero: false, prev_fh_zero: false, listeners: vec![true, false] };
         let mut case = new_case_on(&fx, &st, 7006, true);
         case.last_store = case.stored_entry();
+    case.last_dump = case.hctx.as_ref().map(|h| store_dump(&h.world.persister)).unwrap_or_default();
         let coq_cfg = case.coq_cfg(&fx);
         let coq_init = case.coq_state();
         let mut outs = vec![];
@@ -1996,6 +2026,38 @@ fn scripted(_args: &Args) {
             "atomicity_violations": [], "later_request_violations": [], "invalid_accepted": [],
             "store_violations": outs.iter().filter_map(|o| o.store_violation.clone()).collect::<Vec<_>>(),
             "restart_violations": hits, "coq": coq}));
+    }
+    // (2g) behind the handler, a fresh channel (its monitor has not seen a block yet): a block is
+    // streamed, then AddBlock names it with a header that does not link -> refused as an orphan
+    // (an Ok reply carrying a SignerError); the store - every key, version and value - is as
+    // before, also for a compact orphan; then the correct block is accepted
+    {
+        let st = Start { network: Network::Regtest, trusted: vec![0], warn: false, filter: 0, allow_deep: false, window: 2, height: 8,
+                         tip_bits_kind: None, prev_bits_kind: None, tip_fh_zero: false, prev_fh_zero: false, listeners: vec![true, false] };
+        let mut case = new_case_on(&fx, &st, 7030, true);
+        case.last_store = case.stored_entry();
+        case.last_dump = case.hctx.as_ref().map(|h| store_dump(&h.world.persister)).unwrap_or_default();
+        let coq_cfg = case.coq_cfg(&fx);
+        let coq_init = case.coq_state();
+        let mut outs = vec![];
+        let (b, ch) = case.build_add(&fx, &mut rng, Flavour::StreamedWrongPrev);
+        let bytes = serialize(&b.block);
+        outs.push(case.do_chunk(&fx, &b.block, b.block.block_hash(), 0, &bytes, true, true, true, "chunk(block whose header does not link, whole)".into()));
+        outs.push(case.do_add(&fx, &b, ch, "add[streamed, wrong prev]".into()));
+        let (b, ch) = case.build_add(&fx, &mut rng, Flavour::WrongPrev);
+        outs.push(case.do_add(&fx, &b, ch, "add[WrongPrev]".into()));
+        let (b, ch) = case.build_add(&fx, &mut rng, Flavour::Valid);
+        outs.push(case.do_add(&fx, &b, ch, "add[Valid]".into()));
+        let coq = format!("({}, {}, {}, {})", coq_cfg, coq_init,
+            coq_list(&outs.iter().map(|o| o.coq_req.clone()).collect::<Vec<_>>()),
+            coq_list(&outs.iter().map(|o| o.coq_obs.clone()).collect::<Vec<_>>()));
+        emit("CASE", json!({"id": "orphan-answers-leave-the-store-alone", "kind": "handler",
+            "ops": outs.iter().map(|o| json!([o.what, code_name(o.code)])).collect::<Vec<_>>(),
+            "atomicity_violations": outs.iter().filter_map(|o| o.atomic_violation.clone()).collect::<Vec<_>>(),
+            "later_request_violations": if outs[3].code != 0 { vec![json!({"after_a_refused_request_the_correct_request": outs[3].what, "result": code_name(outs[3].code)})] } else { vec![] },
+            "invalid_accepted": [],
+            "store_violations": outs.iter().filter_map(|o| o.store_violation.clone()).collect::<Vec<_>>(),
+            "restart_violations": [], "coq": coq}));
     }
     // (3) observation, not a C13 violation: a correct streamed removal is refused, because
     // remove_block compares the streamed block's hash with the hash of the PREVIOUS header
